@@ -162,7 +162,7 @@ Definition key_ok (f : kfmt) (s : str) : bool :=
 Definition ty_ok (env : enum_env) (t : fty) (v : value) : bool :=
   match t, v with
   | TInt _ (Some r) _, VInt z => int_rule_ok r z
-  | TStr (Some r) _, VStr s => str_rule_ok r s
+  | TStr _ (Some r) _, VStr s => str_rule_ok r s
   | TBytes (Some r), VBytes b => len_rule_ok r b
   | TBool (Some (Some c)) _, VBool b => Bool.eqb b c
   | TEnum r _, VEnum n =>
@@ -181,7 +181,7 @@ Definition is_primary (t : pty) : bool :=
 
 Definition is_msg_ty (t : fty) : bool :=
   match t with
-  | TDate _ _ | TDecimal _ _ | TTimestamp _ | TAny _ | TObject _ | TOneof _ => true
+  | TDate _ _ | TDecimal _ _ | TTimestamp _ | TAny _ _ _ | TObject _ | TOneof _ => true
   | _ => false
   end.
 
@@ -335,7 +335,7 @@ End Sem.
 (* ---- typing of values against a declaration ------------------------------- *)
 Definition value_typed (t : fty) (v : value) : bool :=
   match t, v with
-  | TInt _ _ _, VInt _ | TStr _ _, VStr _ | TBytes _, VBytes _ | TBool _ _, VBool _
+  | TInt _ _ _, VInt _ | TStr _ _ _, VStr _ | TBytes _, VBytes _ | TBool _ _, VBool _
   | TEnum _ _, VEnum _ | TKey _ _ _, VStr _ => true
   | TFloat _ _, _ => false
   | t, VMsg => is_msg_ty t
